@@ -1,5 +1,8 @@
 # C19 — asset handler: served files stay inside frontend/dist, no listing, CORS by whitelist.
+# The generated file systems contain symbolic links (see gen_links): what a request resolves to is decided by
+# the OS, not by the request path alone.
 import json
+import posixpath
 from common import *
 
 LONG = "L" * 200 + ".js"            # long but below NAME_MAX
@@ -35,6 +38,14 @@ def token(rng, n=None):
                    for _ in range(n))
 
 
+# names for symbolic links (a name is used for a link only where nothing else has it)
+LINK_NAMES = ["latest", "current", "stable", "ln", "l.js", "shared", "vendor", "index.html", "logo.png", "up",
+              "assets", "x", "main.css"]
+# directories outside frontend/dist (relative to the temporary root) that exist besides the canaries' parents
+OUT_DIRS = ["out", "out/sub", "frontend/dist2", "frontend/other"]
+LINK_SHARE = 0.45                    # share of the generated trees that contain symbolic links
+
+
 def gen_tree(rng):
     files, dirs = {}, set()
     for p in rng.sample(FILE_POOL, rng.randint(2, 9)):
@@ -56,11 +67,128 @@ def gen_tree(rng):
     if files and rng.random() < 0.15:
         files[rng.choice(sorted(files))] = ""          # an empty regular file
     canaries = {p: "CANARY[" + p + "]" + token(rng) for p in rng.sample(CANARY_PATHS, rng.randint(3, len(CANARY_PATHS)))}
-    return files, sorted(dirs), canaries
+    outdirs, links = [], []
+    if rng.random() < LINK_SHARE:
+        outdirs, links = gen_links(rng, files, dirs, canaries)
+    return files, sorted(dirs), canaries, outdirs, links
 
 
-def gen_raw(rng, files, dirs):
-    names = sorted(files) + dirs
+DIST = "frontend/dist"
+
+
+def gen_links(rng, files, dirs, canaries):
+    """Symbolic links for one tree.  Every link lies below the temporary root, most of them below
+    frontend/dist; targets: directories and files inside dist (plain, './', trailing slash, upward but
+    inside), other links (chains), the canary files and directories OUTSIDE dist (relative with '..' and
+    absolute), dangling names, loops, a regular file followed by '/' or '/x', '.', '..', the temporary root,
+    '..' beyond the temporary root, and (rarely) a chain around the OS limit of 40 links.
+    Returns (outdirs, [ {path (relative to the temporary root), target, kind} ])."""
+    outdirs = rng.sample(OUT_DIRS, rng.randint(0, 3))
+    out_all = set(outdirs)
+    for p in list(canaries) + outdirs:
+        parts = p.split("/")
+        for i in range(1, len(parts) + (1 if p in outdirs else 0)):
+            out_all.add("/".join(parts[:i]))
+    out_all.discard("frontend")
+    out_all.discard(DIST)
+    taken = {DIST + "/" + p for p in files} | {DIST + "/" + d for d in dirs} | set(canaries) | out_all | {"frontend", DIST}
+    in_dirs = [DIST] + [DIST + "/" + d for d in sorted(dirs)]
+    in_files = [DIST + "/" + f for f in sorted(files)]
+    links = []
+
+    def rel(frm_dir, to):
+        return posixpath.relpath(to, frm_dir)
+
+    def place(where=None):
+        where = where or (rng.choice(in_dirs) if rng.random() < 0.9 else rng.choice(sorted(out_all) or [DIST]))
+        for name in rng.sample(LINK_NAMES, len(LINK_NAMES)):
+            p = where + "/" + name
+            if p not in taken and not any(q.startswith(p + "/") for q in taken):
+                taken.add(p)
+                return where, p
+        return None, None
+
+    def add(kind, where, p, target):
+        links.append({"path": p, "target": target, "kind": kind})
+
+    for _ in range(rng.randint(1, 6)):
+        where, p = place()
+        if p is None:
+            break
+        r = rng.random()
+        if r < 0.20:                                    # a directory inside dist
+            t = rel(where, rng.choice(in_dirs))
+            add("dir", where, p, rng.choice([t, t, "./" + t, t + "/", t + "/."]))
+        elif r < 0.36 and in_files:                     # a regular file inside dist
+            t = rel(where, rng.choice(in_files))
+            add("file", where, p, rng.choice([t, t, "./" + t, t.replace("/", "//", 1)]))
+        elif r < 0.46 and links:                        # another link (chain)
+            add("chain", where, p, rel(where, rng.choice(links)["path"]))
+        elif r < 0.60:                                  # a canary file outside dist
+            k = rng.choice(sorted(canaries))
+            add("out-file", where, p, rng.choice([rel(where, k), rel(where, k), "/" + k]))
+        elif r < 0.74:                                  # a directory outside dist
+            d = rng.choice(sorted(out_all) + ["frontend", ".", "."])
+            t = rng.choice([rel(where, d), rel(where, d), "/" + d if d != "." else "/"])
+            add("out-dir", where, p, t + rng.choice(["", "", "/"]))
+        elif r < 0.80:                                  # dangling
+            add("dangling", where, p, rng.choice(["nope", "missing/x", "../nope", "/nope", "sub/../nope.js"]))
+        elif r < 0.86:                                  # loops
+            if rng.random() < 0.5:
+                add("loop", where, p, posixpath.basename(p))
+            else:
+                where2, p2 = place(where)
+                if p2 is None:
+                    add("loop", where, p, posixpath.basename(p))
+                else:
+                    add("loop", where, p, posixpath.basename(p2))
+                    add("loop", where2, p2, "./" + posixpath.basename(p))
+        elif r < 0.92 and in_files:                     # a regular file used as a directory
+            t = rel(where, rng.choice(in_files))
+            add("file-slash", where, p, t + rng.choice(["/", "/x", "/.", "/.."]))
+        elif r < 0.97:                                  # dot targets
+            add("dots", where, p, rng.choice([".", "..", "../" + posixpath.basename(where), "./.", "../.."]))
+        elif r < 0.985:                                 # climbs above the temporary root (outside the model)
+            add("above", where, p, "../" * (where.count("/") + 2) + "canary.txt")
+        else:                                           # a chain around MAXSYMLINKS = 40
+            n = rng.choice([38, 39, 40, 41])
+            end = rel(where, rng.choice(in_files)) if in_files else "nope"
+            base = posixpath.basename(p)
+            add("long-chain", where, p, base + ".1")
+            for i in range(1, n):
+                q = p + "." + str(i)
+                taken.add(q)
+                add("long-chain", where, q, base + "." + str(i + 1) if i + 1 < n else end)
+    return outdirs, links
+
+
+def link_names(links):
+    """dist-relative paths of the links that lie below frontend/dist"""
+    return [l["path"][len(DIST) + 1:] for l in links if l["path"].startswith(DIST + "/")]
+
+
+def gen_raw_link(rng, files, dirs, canaries, links, lnames):
+    """A request that addresses a link itself, or something reached through it."""
+    l = rng.choice(lnames)
+    below = sorted({c for p in list(files) + dirs + list(canaries) + OUT_DIRS + [x["path"] for x in links]
+                    for c in p.split("/")})
+    r = rng.random()
+    if r < 0.30:
+        tail = rng.choice(["", "", "", "/", "/", "/index.html"])
+    elif r < 0.75:
+        tail = "/" + rng.choice(below) + rng.choice(["", "", "", "/", "/" + rng.choice(below)])
+    elif r < 0.88:
+        tail = "/" + rng.choice(["%2e%2e", "..", "%2e", "%2e%2e/%2e%2e"]) + "/" + rng.choice(below + ["canary.txt", "secret.txt"])
+    else:
+        tail = rng.choice(["/nope", "//", "/%00", "/.", "/" + LONG])
+    return rng.choice(["/assets/"] * 8 + ["/%61ssets/", "/assets/./", "/assets//", "/assets/assets/%2e%2e/"]) + l + tail
+
+
+def gen_raw(rng, files, dirs, canaries=(), links=()):
+    lnames = link_names(links)
+    if lnames and rng.random() < 0.5:
+        return gen_raw_link(rng, files, dirs, canaries, links, lnames)
+    names = sorted(files) + dirs + lnames
     comps = sorted({c for p in names for c in p.split("/")})
     mode = rng.random()
     if mode < 0.08:                                     # hostile: arbitrary mixtures, may not even parse
@@ -136,45 +264,77 @@ class C19(Prop):
     prop_module = "Props.C19"
     prop_file = "Props/C19.v"
     coq_targets = ["Props/C19.vo", "Run/Judge_C19.vo"]
-    sizes = {"quick": 1500, "thorough": 100000}
-    per_tree = {"quick": 50, "thorough": 200}
+    sizes = {"quick": 1500, "thorough": 60000}
+    per_tree = {"quick": 30, "thorough": 150}
     design_ref = "DESIGN.md section 6 C19, section 7 F-C19-a"
     rule = ("raw request targets from a segment grammar (dot segments plain and percent-encoded, encoded "
             "separators, doubled slashes and prefixes, a second /assets/ inside the path, existing files, "
             "directories, index.html, long names, names of the canary files, 8% hostile byte mixtures) x Origin "
             "(absent, empty, listed, '!'-joined pair of entries, near misses, '*', foreign) x whitelists (empty, "
-            "'*', several, trailing slashes, an entry with '!'), batched per generated frontend/dist tree with "
-            "canary files outside it; non-trivial = the request is not a plain hit of an existing file without "
-            "Origin; distinct by SHA-1 of the case")
+            "'*', several, trailing slashes, an entry with '!'), batched per generated file system: a frontend/dist "
+            "tree with canary files and directories outside it; 45% of the trees (LINK_SHARE) also hold 1-6 symbolic "
+            "links, mostly below dist: to directories and files inside dist (plain, './', trailing slash, upward but "
+            "inside), to other links (chains), to the canary files and directories OUTSIDE dist (relative through "
+            "'..' and absolute), dangling, loops, a regular file followed by '/' or '/x', '.', '..', out of dist and "
+            "back in, beyond the temporary root, chains of 39-42 links around the OS limit of 40; on such a tree "
+            "half of the requests address a link itself (with and without trailing slash, /index.html) or "
+            "something below it (children of the target, canary names, encoded dot segments after the link); "
+            "non-trivial = the request is not a plain hit of an existing file without Origin; distinct by SHA-1 "
+            "of the case; corpus/C19 (F-C19-a, F-C19-b witnesses, link-to-directory, 40/41-link chains, loops) runs first")
     trusted = [
-        "net/http (ServeMux, FileServer, serveFile, http.Dir), net/url percent-decoding, path.Clean/path.Base and "
-        "strings.Replace are modelled in Models/Assets.v and compared on every case (Go's own path.Clean result, "
-        "URL.Path, URL.EscapedPath and mux.Handler decision are observed and matched); they are not verified",
+        "net/http (ServeMux, FileServer, serveFile, http.Dir with mapOpenError), net/url percent-decoding, "
+        "path.Clean/path.Base and strings.Replace are modelled in Models/Assets.v and compared on every case (Go's own "
+        "path.Clean result, URL.Path, URL.EscapedPath and mux.Handler decision are observed and matched); they are "
+        "not verified",
         "the theorems quantify over all decoded paths and all three mux decisions, so they hold whatever the URL "
         "decoder and ServeMux do; the decoded path is the byte string the handler receives in URL.Path",
-        "the file system is a finite map from clean rooted paths below frontend/dist to regular files and "
-        "directories: symbolic links, permissions (403), NAME_MAX/PATH_MAX and every other OS path semantic are "
-        "outside the model (requests with a component above 255 bytes are judged by the oracle only: unmodelled)",
+        "the file system is a finite map from clean rooted physical paths below the process's working directory to "
+        "regular files, directories and symbolic links; open/stat follow links the way Linux does (Models/Assets.v "
+        "walk: physical '..', absolute targets, ENOENT/ENOTDIR/ELOOP after 40 links, trailing slash on a "
+        "non-directory); the model is compared with the real OS on every generated tree, it is not verified; "
+        "the harness maps an absolute link target /x to <temporary root>/x",
+        "the oracle is evaluated on the real response and does not resolve links: a 200 body must be byte-identical "
+        "to a regular file that physically lies below frontend/dist, any other answer must contain no file's "
+        "content, the content of a file outside dist must be in no answer, and a 200 answer must not be net/http's "
+        "HTML index of a directory; file contents are random tagged tokens, so equal bytes identify the file",
+        "frontend and frontend/dist themselves are plain directories; permissions (403), special files, "
+        "NAME_MAX/PATH_MAX are outside the model (requests with a component above 255 bytes and resolutions that "
+        "climb above the temporary root are judged by the oracle only: unmodelled)",
         "GET without conditional or Range headers, no query string; check_webpack_1337 = false",
         "the CORS model is the code after fixes/0001-fix-*.patch (F-C19-a); Module.Configure passes the whitelist "
         "untrimmed (trailing slashes are trimmed only in routes.Routes, which is not the handler of this property)",
     ]
-    assumptions = ["OS file system = finite tree of regular files and directories (no symlinks, no permission errors)"]
-    not_yet_proved = []
+    assumptions = [
+        "OS file system = finite tree of regular files, directories and symbolic links with Linux path resolution "
+        "(at most 40 links per lookup); no permission errors; frontend/dist itself is a plain directory",
+        "domain of the clause 'never serves a file outside that directory': dom_C19 (no link target is absolute or "
+        "has a '..' component; sufficient) in the theorem C19_only_file_bytes_partial, and the exact per-request "
+        "test 'the resolved regular file lies physically below frontend/dist' in the judge; off that domain the "
+        "code follows the link and serves the outside file: listed finding F-C19-b (judge class 1, "
+        "C19_file_outside_refuted), not repaired",
+        "'never lists a directory' and 'a 200 carries exactly the bytes of a regular file' have NO link-related "
+        "restriction: C19_no_listing and C19_only_file_bytes hold for every tree, whatever the links do",
+    ]
+    not_yet_proved = [
+        "C19_only_file_bytes_partial is proved under the syntactic condition dom_C19 on the whole tree; the exact "
+        "condition (every link's own resolution ends inside dist) is only evaluated per request by the judge",
+    ]
 
     def generate(self, rng, n, tier):
         per = self.per_tree.get(tier, 50)
         cases = []
         while len(cases) < n:
-            files, dirs, canaries = gen_tree(rng)
+            files, dirs, canaries, outdirs, links = gen_tree(rng)
             wl = rng.choice(WHITELISTS)
             base = {"files": [{"path": hx(p), "data": hx(files[p])} for p in sorted(files)],
                     "dirs": [hx(d) for d in dirs],
                     "canaries": [{"path": hx(p), "data": hx(canaries[p])} for p in sorted(canaries)],
+                    "outdirs": [hx(d) for d in outdirs],
+                    "links": [{"path": hx(l["path"]), "target": hx(l["target"]), "kind": l["kind"]} for l in links],
                     "whitelist": [hx(w) for w in wl]}
             for _ in range(min(per, n - len(cases))):
                 c = dict(base)
-                c["raw"] = hx(gen_raw(rng, files, dirs))
+                c["raw"] = hx(gen_raw(rng, files, dirs, canaries, links))
                 o = gen_origin(rng, wl)
                 c["origin"] = None if o is None else hx(o)
                 cases.append(c)
@@ -182,16 +342,31 @@ class C19(Prop):
 
     # ---- Gallina
     def emit(self, case, obs):
-        nodes = {b"/": b"Dir"}
+        # the whole generated file system, keyed by clean rooted physical path below the temporary root
+        nodes = {b"/": b"Dir", b"/frontend": b"Dir", b"/frontend/dist": b"Dir"}
+
+        def parents(parts, upto):
+            for i in range(1, upto):
+                nodes.setdefault(b"/" + b"/".join(parts[:i]), b"Dir")
+
         for d in case["dirs"]:
+            parts = [b"frontend", b"dist"] + unhx(d).split(b"/")
+            parents(parts, len(parts) + 1)
+        for d in case.get("outdirs", []):
             parts = unhx(d).split(b"/")
-            for i in range(1, len(parts) + 1):
-                nodes[b"/" + b"/".join(parts[:i])] = b"Dir"
+            parents(parts, len(parts) + 1)
         for f in case["files"]:
-            parts = unhx(f["path"]).split(b"/")
-            for i in range(1, len(parts)):
-                nodes[b"/" + b"/".join(parts[:i])] = b"Dir"
-            nodes[b"/" + unhx(f["path"])] = b"(Reg " + cq_bytes(unhx(f["data"])) + b")"
+            parts = [b"frontend", b"dist"] + unhx(f["path"]).split(b"/")
+            parents(parts, len(parts))
+            nodes[b"/" + b"/".join(parts)] = b"(Reg " + cq_bytes(unhx(f["data"])) + b")"
+        for k in case["canaries"]:
+            parts = unhx(k["path"]).split(b"/")
+            parents(parts, len(parts))
+            nodes[b"/" + b"/".join(parts)] = b"(Reg " + cq_bytes(unhx(k["data"])) + b")"
+        for l in case.get("links", []):
+            parts = unhx(l["path"]).split(b"/")
+            parents(parts, len(parts))
+            nodes[b"/" + b"/".join(parts)] = b"(Link " + cq_bytes(unhx(l["target"])) + b")"
         tree = cq_list([cq_pair(cq_bytes(k), v) for k, v in sorted(nodes.items())])
         mux = {"pass": 0, "redirect": 1, "notfound": 2, "none": 3}[obs["mux"]]
         cls = {"ok": 0, "redirect": 1, "notfound": 2, "error": 3, "badreq": 4}.get(obs["class"], 5)
@@ -200,7 +375,6 @@ class C19(Prop):
                 b"; origin := " + cq_opt(None if case["origin"] is None else cq_bytes(unhx(case["origin"]))) +
                 b"; wl := " + cq_list([cq_bytes(unhx(w)) for w in case["whitelist"]]) +
                 b"; files := " + tree +
-                b"; canaries := " + cq_list([cq_bytes(unhx(k["data"])) for k in case["canaries"]]) +
                 b"; go_parsed := " + cq_bool(parsed) +
                 b"; go_ep := " + cq_bytes(unhx(obs["ep"])) +
                 b"; go_dec := " + cq_bytes(unhx(obs["dec"])) +
@@ -227,6 +401,8 @@ class C19(Prop):
                 "files": [unhx(f["path"]).decode("latin-1")[:40] for f in case["files"]],
                 "dirs": [unhx(d).decode("latin-1") for d in case["dirs"]],
                 "canaries": [unhx(k["path"]).decode("latin-1") for k in case["canaries"]],
+                "links": [unhx(l["path"]).decode("latin-1")[:60] + " -> " + unhx(l["target"]).decode("latin-1")[:60]
+                          for l in case.get("links", [])][:8],
                 "go": {"status": obs["status"], "mux": obs["mux"], "decoded": unhx(obs["dec"]).decode("latin-1")[:120],
                        "body": unhx(obs["body"]).decode("latin-1")[:60],
                        "acao": None if obs["acao"] is None else unhx(obs["acao"]).decode("latin-1")}}
@@ -244,11 +420,13 @@ class C19(Prop):
             r = "/".join(segs[:i] + segs[i + 1:])
             if r.startswith("/"):
                 yield variant(raw=hx(r.encode("latin-1")))
-        for key in ("files", "dirs", "canaries"):
-            if case[key]:
+        for key in ("links", "outdirs", "files", "dirs", "canaries"):
+            cur = case.get(key, [])
+            if cur:
                 yield variant(**{key: []})
-            for i in range(len(case[key])):
-                yield variant(**{key: case[key][:i] + case[key][i + 1:]})
+            if len(cur) <= 12:
+                for i in range(len(cur)):
+                    yield variant(**{key: cur[:i] + cur[i + 1:]})
         wl = case["whitelist"]
         for i in range(len(wl)):
             yield variant(whitelist=wl[:i] + wl[i + 1:])
@@ -270,7 +448,12 @@ class C19(Prop):
              "raw_plain_dotdot": 0, "raw_encoded_dot": 0, "raw_encoded_sep": 0, "raw_double_slash": 0,
              "raw_second_assets": 0, "raw_index_html": 0, "raw_names_a_canary": 0, "raw_long": 0,
              "origin_absent": 0, "origin_empty": 0, "origin_listed": 0, "origin_with_bang": 0, "origin_other": 0,
-             "whitelist_empty": 0, "whitelist_star": 0, "whitelist_trailing_slash": 0, "trees": 0}
+             "whitelist_empty": 0, "whitelist_star": 0, "whitelist_trailing_slash": 0, "trees": 0,
+             "tree_has_links": 0, "tree_has_link_out_of_dist": 0, "raw_names_a_link": 0, "trees_with_links": 0,
+             "answer_200_through_link": 0, "answer_200_with_canary_bytes": 0}
+        for k in ("dir", "file", "chain", "out-file", "out-dir", "dangling", "loop", "file-slash", "dots", "above",
+                  "long-chain"):
+            d["tree_has_link_kind_" + k] = 0
         seen = set()
         for c, o in zip(cases, obss):
             k = {"ok": "status_200", "redirect": "status_301", "notfound": "status_404", "error": "status_500",
@@ -302,9 +485,23 @@ class C19(Prop):
             d["whitelist_empty"] += not wl
             d["whitelist_star"] += b"*" in wl
             d["whitelist_trailing_slash"] += any(w.endswith(b"/") for w in wl)
-            t = json.dumps([c["files"], c["dirs"], c["whitelist"]])
+            links = c.get("links", [])
+            t = json.dumps([c["files"], c["dirs"], c["whitelist"], links])
             if t not in seen:
                 seen.add(t)
+                d["trees_with_links"] += bool(links)
+            if links:
+                d["tree_has_links"] += 1
+                d["tree_has_link_out_of_dist"] += any(l.get("kind") in ("out-file", "out-dir", "above") for l in links)
+                for k in {l.get("kind") for l in links}:
+                    if "tree_has_link_kind_%s" % k in d:
+                        d["tree_has_link_kind_%s" % k] += 1
+                segs = unhx(c["raw"]).split(b"/")
+                firsts = {unhx(l["path"])[len(DIST) + 1:] for l in links if unhx(l["path"]).startswith(DIST.encode() + b"/")}
+                named = any(b"/" + f + b"/" in unhx(c["raw"]) + b"/" for f in firsts)
+                d["raw_names_a_link"] += named
+                d["answer_200_through_link"] += named and o["class"] == "ok"
+            d["answer_200_with_canary_bytes"] += o["class"] == "ok" and unhx(o["body"]).startswith(b"CANARY[")
         d["trees"] = len(seen)
         return d
 
